@@ -162,7 +162,12 @@ def parseParams (toks : List String) : Params :=
         | _, _ => none
       | _ => none),
     burnAddr := look m "burn", oldBurnAddr := look m "oldburn", mintAddr := look m "mintaddr",
-    coinbaseAddr := look m "coinbase", zeroAddr := look m "zero" }
+    coinbaseAddr := look m "coinbase", zeroAddr := look m "zero",
+    forks := (splitList (look m "forks")).filterMap (fun s => match s.splitOn ":" with
+      | [a, v] => match a.toNat?, v.toInt? with
+        | some a, some v => some (a, v)
+        | _, _ => none
+      | _ => none) }
 
 /-! ### dump -/
 
@@ -219,7 +224,7 @@ def step (st : St) (line : String) : St × List String :=
     let P := parseParams rest
     ({ st with P := P, node := { mem := P.act.pegnet } }, ["ok"])
   | ["reset"] => ({ st with node := { mem := st.P.act.pegnet } }, ["ok"])
-  | ["restart"] => ({ st with node := restart st.node }, ["ok"])
+  | ["restart"] => ({ st with node := restart st.P st.node }, ["ok"])
   | ["begin", h, ts] =>
     match h.toNat?, ts.toInt? with
     | some h, some ts => ({ st with pending := { height := h, ts := ts }, txLeft := 0, fctLeft := 0 }, ["ok"])
